@@ -40,7 +40,7 @@ CHECKS = {
             'and deposit market is checked exactly for every period: demand = sum of declared demanders, supply = demand, '
             'allocations sum to supply, participants booked what the market assigns (cross rate for foreign suppliers), portfolios add up.',
             'DESIGN.md section 6 C04'),
-    'C05': (['ModelBuild', 'ModelBuild_Trace'], MB,
+    'C05': (['ModelBuild', 'ModelBuild_Trace', 'Names', 'Names_Trace'], MB + '; plus spec Names.tla (placeholder life cycle) replayed on a real model',
             'TLC checks C05_Closed on the abstract final state; on rebuilt models (programs embed names requested before full codes '
             'exist in sector equations, supplier rules and global equations) the emitted text is checked for placeholders, duplicate '
             'or non-canonical names, dangling references and meaning preservation against the sector-local equations.',
@@ -79,6 +79,14 @@ CHECKS = {
             'each block is parsed by the real parser and judged class by class; with/without comments must give identical parser '
             'lists and solved series; SIM built with hostile descriptions must give identical results.',
             'DESIGN.md section 6 C14'),
+    'C10': (['Horizon', 'Horizon_Trace'],
+            'TLA+ spec Horizon.tla (four time-zero passes, per-period append, horizon set in the block or on the solver) '
+            'model-checked by TLC; TLC-generated blocks (exogenous forms x initial-condition classes x horizons) solved by the '
+            'real EquationSolver and through the Model API; supplied vs observed data validated by TLC against Horizon_Trace.tla',
+            'TLC enumerates the exogenous specifications (list, tuple, expression, scalar; rejected forms), initial conditions on '
+            'every variable class and horizons with C10_Lengths / ExoVerbatim / ICVerbatim / LagShift / TimeAxis / Rejects; each block '
+            'is solved for real and compared with exactly the data that was supplied (exact float equality).',
+            'DESIGN.md section 6 C10'),
     'C11': (['Solver', 'Solver_Trace', 'Reject', 'Reject_Trace'],
             'TLA+ specs Solver.tla (cap, error classification, prefix/lengths after failure) and Reject.tla (invalid names and '
             'declarations) model-checked by TLC; control behaviours and declaration sequences replayed on the real solver / '
@@ -102,6 +110,14 @@ CHECKS = {
             'All expressions of the bounded grammar and all partial maps (swaps, chains, merges) are enumerated by TLC with the '
             'C13_* invariants; every behaviour is executed on the real functions and judged token by token and by value.',
             'DESIGN.md section 6 C13'),
+    'C15': (['Steady', 'Steady_Trace'],
+            'TLA+ spec Steady.tla (copy, freeze, run, the three-step acceptance test per variable, install / reject) '
+            'model-checked by TLC over a signed (prev, last, drift) grid; every grid class realised by real equation systems; the '
+            'real CalculateInitialSteadyState plus one further real step validated by TLC against Steady_Trace.tla',
+            'TLC enumerates the acceptance decision for every grid class of 1-2 (quick) / 3 variables with C15_AcceptedIsSteady, '
+            'C15_OtherwiseRaises and the action property C15_LeavesSolverUntouched; each class is realised (stable, drifting, growing, '
+            'oscillating, sign-changing systems) and an accepted state must not move by more than the tolerance in one more period.',
+            'DESIGN.md section 6 C15'),
     'C16': (['Results', 'Results_Trace'],
             'TLA+ spec Results.tla (store, handed-out lists, cutoff, suppression, variable list) model-checked by TLC; all call '
             'histories replayed on a real Model / EquationSolver / BaseSolver with deep snapshots after every call; traces '
